@@ -178,6 +178,20 @@ def _coalesce_corrupt(evs, profile):
     return None
 
 
+def _health_corrupt(evs, profile):
+    out = [dict(e) for e in evs]
+    # a resource is published unhealthy one failed check too early
+    for e in out:
+        if e.get('e') == 'round':
+            st = list(e['status'])
+            for i, x in enumerate(st):
+                if x != 'unhealthy' and e['cf'][i] < out[0]['cfg']['ft']:
+                    st[i] = 'unhealthy'
+                    e['status'] = st
+                    return out
+    return None
+
+
 COMPONENTS = {
     'bulkhead': {
         'spec_files': ['Bulkhead.tla', 'MC_Bulkhead.tla', 'Trace_Bulkhead.tla'],
@@ -296,6 +310,14 @@ COMPONENTS = {
         'random': {'quick': [{'runs': 2000}], 'thorough': [{'runs': 30000}]},
         'corrupt': _coalesce_corrupt,
     },
+    'health': {
+        'spec_files': ['Health.tla', 'MC_Health.tla', 'Trace_Health.tla'],
+        'mc': {'quick': [{'cfg': 'MC_Health.cfg', 'module': 'MC_Health'}], 'thorough': [{'cfg': 'MC_Health.cfg', 'module': 'MC_Health'}]},
+        'trace_module': 'Trace_Health', 'trace_cfg_tmpl': 'Trace_Health.cfg.tmpl',
+        'harness': 'health',
+        'random': {'quick': [{'runs': 0}], 'thorough': [{'runs': 0}]},
+        'corrupt': _health_corrupt,
+    },
 }
 
 PROPS = {
@@ -317,6 +339,7 @@ PROPS = {
     'C12': {'comp': 'hedge', 'profile': 'full'},
     'C10': {'comp': 'cache', 'profile': 'full'},
     'C11': {'comp': 'coalesce', 'profile': 'full'},
+    'C18': {'comp': 'health', 'profile': 'full'},
     'C02': {'comp': 'ratelimiter', 'profile': 'ProfC02', 'drift_profile': 'ProfAll'},
     'C15': {'comp': 'ratelimiter', 'profile': 'ProfC15', 'drift_profile': 'ProfAll'},
 }
